@@ -65,6 +65,7 @@ type Config struct {
 	Name      string
 	New       func() Sys
 	MaxStates int // cap; 0 = none
+	MaxDepth  int // states at this depth are not expanded (0 = search to fixpoint); Result.DepthBounded is set when it cut anything
 	Workers   int // goroutines (0 = all CPUs; 1 = deterministic order of states and representatives)
 	// OnState, if set, is called once per distinct state with the shortest path reaching it
 	// (not concurrently).
@@ -73,6 +74,8 @@ type Config struct {
 	GoTest func(path []Op) string
 	// NoTwin switches the instance-isolation step off (see Explore).
 	NoTwin bool
+
+	modelKeys bool // set by Explore after a replay divergence (see ModelKeyer)
 }
 
 type Result struct {
@@ -80,6 +83,7 @@ type Result struct {
 	States, Transitions, MaxDepth int
 	Exhaustive                    bool
 	Fails, Pruned                 int
+	DepthBounded                  bool // the search stopped at Config.MaxDepth with states left to expand (everything below that depth was covered)
 }
 
 type node struct {
@@ -95,6 +99,22 @@ func (n *node) path() []Op {
 		p[x.depth-1] = x.op
 	}
 	return p
+}
+
+// ModelKeyer is optionally implemented by a Sys: a state key computed from the reference model alone.
+// The search normally identifies states by the fingerprint of the implementation's complete concrete
+// layout (Key). When replaying one path twice gives two different layouts - an implementation whose
+// layout depends on something besides the operation history, e.g. a cache filled in Go map iteration
+// order - that fingerprint cannot identify states; instead of giving up, the search is then restarted
+// with states identified by ModelKey plus the last operation (every model state x every last
+// operation is expanded with every operation), and the evidence records layout_fallback.
+type ModelKeyer interface{ ModelKey() string }
+
+func keyOf(cfg *Config, s Sys, last Op) [16]byte {
+	if cfg.modelKeys {
+		return md5.Sum([]byte("M|" + s.(ModelKeyer).ModelKey() + "|" + fmt.Sprint(last)))
+	}
+	return md5.Sum([]byte(s.Key()))
 }
 
 type replayDoc struct {
@@ -150,6 +170,19 @@ func Explore(r *ev.Run, cfg Config) Result {
 		replayMode(cfg, f)
 		return Result{}
 	}
+	res, diverged := explore(r, cfg)
+	if diverged {
+		r.Add("layout_fallback_configs", 1)
+		r.Set("layout_fallback", "the concrete layout of "+cfg.Name+" is not a function of the operation history (replaying one path gave two fingerprints); states identified by reference-model state x last operation instead")
+		cfg.modelKeys = true
+		res, _ = explore(r, cfg)
+		res.Exhaustive = false
+		r.MarkCapped()
+	}
+	return res
+}
+
+func explore(r *ev.Run, cfg Config) (Result, bool) {
 	if cfg.MaxStates == 0 {
 		// default cap: a change that adds a hidden counter to the structure makes the concrete state
 		// space unbounded; the search then stops here with exhaustive:false instead of running away
@@ -173,7 +206,7 @@ func Explore(r *ev.Run, cfg Config) Result {
 	root := &node{}
 	{
 		s := cfg.New()
-		root.key = md5.Sum([]byte(s.Key()))
+		root.key = keyOf(&cfg, s, Op{})
 		seen[root.key] = struct{}{}
 		if fl := safe(s.Observe); fl != nil {
 			r.Report(ev.Violation{Sig: cfg.Name + "|" + fl.Sig, Msg: "initial state: " + fl.Msg, Replay: replayDoc{cfg.Name, nil}})
@@ -186,6 +219,7 @@ func Explore(r *ev.Run, cfg Config) Result {
 	}
 	res.States = 1
 	var transitions, pruned, twins int64
+	var diverged int32
 
 	slots := make([]*slot, workers)
 	for i := range slots {
@@ -204,6 +238,10 @@ func Explore(r *ev.Run, cfg Config) Result {
 		}
 		if r.Violations() >= 8 {
 			res.Exhaustive = false
+			break
+		}
+		if cfg.MaxDepth > 0 && frontier[0].depth >= cfg.MaxDepth {
+			res.DepthBounded = true
 			break
 		}
 		var next []*node
@@ -236,7 +274,11 @@ func Explore(r *ev.Run, cfg Config) Result {
 					for _, op := range path {
 						s.Apply(op)
 					}
-					if k := md5.Sum([]byte(s.Key())); k != n.key {
+					if k := keyOf(&cfg, s, n.op); k != n.key {
+						if _, ok := s.(ModelKeyer); ok && !cfg.modelKeys {
+							atomic.StoreInt32(&diverged, 1)
+							return
+						}
 						ev.Infra("%s: replay divergence (uncontrolled nondeterminism) at %v", cfg.Name, path)
 					}
 					ops := s.Ops()
@@ -255,7 +297,7 @@ func Explore(r *ev.Run, cfg Config) Result {
 						fl := safe(func() *Fail { return s.Apply(op) })
 						var key [16]byte
 						if fl == nil {
-							fl = safe(func() *Fail { key = md5.Sum([]byte(s.Key())); return nil })
+							fl = safe(func() *Fail { key = keyOf(&cfg, s, op); return nil })
 						}
 						if fl == nil && !cfg.NoTwin {
 							// instance isolation: for a state not seen before, a second, unrelated instance is
@@ -267,6 +309,7 @@ func Explore(r *ev.Run, cfg Config) Result {
 							seenMu.Unlock()
 							if !old {
 								fl = safe(func() *Fail {
+									before := md5.Sum([]byte(s.Key()))
 									t := cfg.New()
 									for _, p := range full {
 										if f := t.Apply(p); f != nil {
@@ -278,7 +321,7 @@ func Explore(r *ev.Run, cfg Config) Result {
 											break
 										}
 									}
-									if md5.Sum([]byte(s.Key())) != key {
+									if md5.Sum([]byte(s.Key())) != before {
 										return Failf("instance-isolation", "operations on a second, unrelated instance changed the state of this one")
 									}
 									return nil
@@ -326,6 +369,9 @@ func Explore(r *ev.Run, cfg Config) Result {
 			}(slots[w])
 		}
 		wg.Wait()
+		if atomic.LoadInt32(&diverged) != 0 {
+			return res, true
+		}
 		if overCap {
 			res.Exhaustive = false
 			r.MarkCapped()
@@ -349,7 +395,7 @@ func Explore(r *ev.Run, cfg Config) Result {
 	res.Pruned = int(pruned)
 	res.Twins = int(twins)
 	r.Add("instance_isolation_states", twins)
-	return res
+	return res, false
 }
 
 func replayMode(cfg Config, file string) {
